@@ -71,7 +71,7 @@ def make_stub_class():
             sd = self.seed(m)
             if "x" in sd:
                 v = sd["x"].values
-                used.append((int(v[0]), int(v[1])))
+                used.append((int(v[0]), int(v[1]), int(v[2])))  # (solve, member, optimize() call)
             else:
                 used.append(None)
         self.current = k
@@ -81,7 +81,8 @@ def make_stub_class():
 
     def extract_results(self, ensemble_member=0):
         k = self.current
-        return {"x": np.array([float(k), float(ensemble_member), 0.0]), "s": np.array([float(k)])}
+        return {"x": np.array([float(k), float(ensemble_member), float(getattr(self, "run", 0))]),
+                "s": np.array([float(k)])}
 
     def pre(self):
         self.n_pre += 1
@@ -121,6 +122,30 @@ def run_impl(cls, opts, script, members=1, fuel=FUEL):
         return dict(kind="raise", err=type(e).__name__, log=p.log, ret=None, p=p)
     final = [p.extract_results(m) for m in range(members)]
     return dict(kind="ok", ret=ret, log=p.log, p=p, final=[int(f["x"][0]) for f in final])
+
+
+def run_impl_seq(cls, runs, members=1):
+    """several optimize() calls on ONE object; runs = [(opts, script)]; returns one result per call"""
+    p = cls([], {}, members, FUEL)
+    out = []
+    for ri, (opts, script) in enumerate(runs):
+        p.script, p.opts, p.log, p.current = list(script), dict(opts), [], None
+        p.n_pre = p.n_post = p.n_clear = 0
+        p.run = ri
+        b = solve_bound(opts)
+        p.fuel = FUEL if b is None else min(FUEL, b + 5)
+        try:
+            ret = p.optimize()
+        except Diverged:
+            out.append(dict(kind="diverged", log=p.log, ret=None))
+            break
+        except Exception as e:
+            out.append(dict(kind="raise", err=type(e).__name__, log=p.log, ret=None))
+            continue
+        final = [p.extract_results(m) for m in range(members)]
+        out.append(dict(kind="ok", ret=ret, log=p.log, final=[int(f["x"][0]) for f in final],
+                        counts=(p.n_pre, p.n_post, p.n_clear)))
+    return out
 
 
 # ---------------------------------------------------------------------------------------------
@@ -236,6 +261,8 @@ def oracle(c, case, opts, r, exact):
     used = [e[2] for e in log]
     if any(t > 1.0 for t in th):
         bad.append("theta exceeded 1: %r" % max(th))
+    if any(t < ts for t in th):
+        bad.append("theta below theta_start: %r" % min(th))
     if th[0] != ts:
         bad.append("first solve not at theta_start")
     if used[0] is not None:
@@ -469,6 +496,80 @@ def stream_random(c, cls, n):
     run_batch(c, cls, batch, "stub", members_of=lambda o, s: 1 + (len(s) % 2))
 
 
+def stream_sequences(c, cls, big):
+    """several optimize() calls on one object, an outcome script (and sometimes other options) per call.
+    Each call is judged by the oracle on its own and compared with the model of a FRESH call
+    (theorem C18_runs_independent): results stored by an earlier call must not influence it."""
+    rng = c.rng
+    scripts = [list(sc) for n in range(0, 4) for sc in itertools.product([True, False], repeat=n)]
+    optsets = [{}, {"delta_theta_0": 0.5, "delta_theta_min": 0.125},
+               {"theta_start": 0.25, "delta_theta_0": 0.375, "delta_theta_min": 1 / 16}]
+    if big:
+        optsets += [{"theta_start": -0.5, "delta_theta_0": 1.0, "delta_theta_min": 0.25}, {"theta_start": 1.0},
+                    {"delta_theta_0": 0.3, "delta_theta_min": 0.05}]
+    seqs = []
+    for o in optsets:
+        for s1 in scripts:
+            for s2 in scripts:
+                seqs.append([(o, s1), (o, s2)])
+    for _ in range(1500 if big else 150):
+        k = rng.choice([2, 3, 3, 4])
+        same = rng.random() < 0.5
+        o0 = gen_opts(rng)
+        o0.pop("_short", None)
+        runs = []
+        for j in range(k):
+            o = o0 if same else gen_opts(rng)
+            o.pop("_short", None)
+            if full_opts(o)[2] <= 0:
+                o = dict(o, delta_theta_min=0.125)
+            sc = gen_script(rng)[:10]
+            if j > 0 and rng.random() < 0.4:
+                sc = [False] + sc  # a later call whose first solve fails
+            runs.append((o, sc))
+        seqs.append(runs)
+    results, lines = [], []
+    for runs in seqs:
+        members = 1 + (len(runs[0][1]) % 2)
+        rs = run_impl_seq(cls, runs, members)
+        results.append(rs)
+        for (opts, script), r in zip(runs, rs):
+            lines.append(model_line(opts, script, pad=max(0, min(FUEL, len(r["log"]) + 2 - len(script)))))
+    outs = c.model(lines)
+    pos = 0
+    for runs, rs in zip(seqs, results):
+        shape = []
+        for ri, ((opts, script), r) in enumerate(zip(runs, rs)):
+            case = dict(stream="sequence", call=ri, options=opts, script=[bool(b) for b in script],
+                        calls=[dict(options=o, script=[bool(b) for b in sc]) for o, sc in runs])
+            exact = exact_instance(opts)
+            # seeds taken from results of ANOTHER call count as foreign (-1)
+            log = []
+            for e in r["log"]:
+                used = [None if u is None else ((u[0], u[1]) if u[2] == ri else (-1, u[1])) for u in e[2]]
+                log.append((e[0], e[1], used, e[3], e[4]))
+            rr = dict(r, log=log)
+            flat = dict(rr)
+            flat["log"] = [(e[0][0], e[1], (e[2][0][0] if e[2][0] is not None else None)) for e in log]
+            oracle(c, case, opts, flat, exact)
+            if r["kind"] == "ok" and (r["counts"][0] != 1 or r["counts"][1] != 1):
+                c.fail("call %d: pre()/post() ran %d/%d times" % (ri, r["counts"][0], r["counts"][1]), case)
+            shape.append("raise" if r["kind"] != "ok" else ("ok" if r["ret"] else ("fail-first" if len(log) == 1 else "fail-later")))
+            if outs is not None:
+                mo = outs[pos]
+                judged = compare(c, case, opts, rr, mo, exact, "sequence")  # False: skipped as a near-tie
+                if judged and r["kind"] == "ok" and not mo.get("raise") and mo["cleared"] != r["counts"][2]:
+                    c.disagree("sequence: clear_transcription_cache calls in call %d" % ri, case, mo["cleared"], r["counts"][2])
+            pos += 1
+        pos += len(runs) - len(rs)
+        c.count(("sequence", tuple((full_opts(o), tuple(bool(e[1]) for e in r["log"]), r["ret"]) for (o, _), r in zip(runs, rs))))
+        c.hit("sequence/%d-calls" % len(runs))
+        for a, b in zip(shape, shape[1:]):
+            c.hit("sequence/%s-then-%s" % (a, b))
+        c.sample(dict(stream="sequence", calls=[dict(options=o, script=sc) for o, sc in runs], shape=shape), limit=8)
+    return len(seqs)
+
+
 GRID_QUICK = [
     {}, {"delta_theta_0": 0.5, "delta_theta_min": 0.125}, {"theta_start": 0.5, "delta_theta_0": 0.375, "delta_theta_min": 1 / 16},
     {"delta_theta_0": 0.3, "delta_theta_min": 0.05}, {"theta_start": 0.1, "delta_theta_0": 0.35, "delta_theta_min": 0.03},
@@ -578,6 +679,9 @@ def run(c):
         n = stream_exhaustive(c, cls, GRID_QUICK, 9)
         c.exhaustive = False
         c.notes.append("all outcome sequences of length <= 9 for %d option sets enumerated (%d runs); " % (len(GRID_QUICK), n))
+    nq = stream_sequences(c, cls, c.big)
+    c.notes.append("sequence stream: %d objects optimized 2-4 times (all pairs of outcome scripts of length <= 3 for "
+                   "%d option sets, plus random ones with options changing between the calls); " % (nq, 6 if c.big else 3))
     c18_real.stream_real(c, c.n(40, 160), oracle, compare, model_line)
     c.programs = c.dist.get("real/programs", 0)
     c.notes.append("the unbounded claim (every outcome oracle, all options) is carried by the theorems; "
